@@ -419,7 +419,14 @@ def r6_lookup(ctx, prog):
 
 def run(ctx):
     prog = ctx.mir("main")
-    return [r1_traversals(ctx), r2_naming(ctx), r3_locale_consistency(ctx, prog), r4_order(ctx, prog), r5_inherits(ctx, prog), r6_lookup(ctx, prog)]
+    # a literal `count` argument selects the branch at parse time: that selection must agree with what the referenced range
+    # renders at run time for the same count (the do_match clauses of C04.R1, decided by rules/c04.py)
+    from rules import c04
+    from rules.common import borrow
+    r7 = borrow(c04.r1_semantics(ctx), "C06.R7", "a literal count passed to a range reference selects the branch the range itself renders",
+                "`$t(range, {\"count\": 1.0})` is resolved at parse time by Range::do_match; if its bound semantics differ from the generated "
+                "run-time patterns the reference shows another branch than the key it refers to", only=r"do_match", floor=3)
+    return [r1_traversals(ctx), r2_naming(ctx), r3_locale_consistency(ctx, prog), r4_order(ctx, prog), r5_inherits(ctx, prog), r6_lookup(ctx, prog), r7]
 
 
 MANIFEST_ENTRY = {
